@@ -648,6 +648,47 @@ fn c18_eval_equiv(desc: &str, sources: &[String]) -> (u64, u64, Vec<Violation>) 
     (sources.len() as u64, sources.len() as u64 - 1, v)
 }
 
+/// The same key given twice with DIFFERENT values, in both orders (one attribute and two): either
+/// both orders are rejected, or both are accepted with the same output - "last one wins" would make
+/// the lexer depend on the order of the items.
+pub fn c18_dup_cases() -> Vec<(String, Vec<String>)> {
+    let keys: [(&str, &str, &str, &str, &str); 9] = [
+        ("crate", "crate = ::logos", "crate = other::logos", "", "A"),
+        ("extras", "extras = u32", "extras = u64", "", "A"),
+        ("error", "error = E", "error = F", "", "A"),
+        ("error group", "error(E)", "error = F", "", "A"),
+        ("utf8", "utf8 = true", "utf8 = false", "", "A"),
+        ("lifetime", "lifetime = 'a", "lifetime = 'b", "<'a, 'b>", "A(&'a str, )"),
+        ("export_dir", "export_dir = \"x\"", "export_dir = \"y\"", "", "A"),
+        ("type", "type T = u8", "type T = u16", "<T>", "A(T)"),
+        ("subpattern", "subpattern a = \"x\"", "subpattern a = \"y\"", "", "A"),
+    ];
+    let mut v = vec![];
+    for (k, x, y, generics, variant) in keys {
+        let body = if variant.contains('(') { format!("#[regex(\"q+\", cb)] {}", variant.replace(", )", ")")) } else { format!("#[regex(\"q+\")] {variant}") };
+        v.push((format!("duplicate {k} (one attribute)"), vec![format!("#[logos({x}, {y})] enum T{generics} {{ {body} }}"), format!("#[logos({y}, {x})] enum T{generics} {{ {body} }}")]));
+        v.push((format!("duplicate {k} (two attributes)"), vec![format!("#[logos({x})] #[logos({y})] enum T{generics} {{ {body} }}"), format!("#[logos({y})] #[logos({x})] enum T{generics} {{ {body} }}")]));
+        v.push((format!("duplicate {k} (with another item between)"), vec![format!("#[logos({x}, skip \" \", {y})] enum T{generics} {{ {body} }}"), format!("#[logos({y}, skip \" \", {x})] enum T{generics} {{ {body} }}")]));
+    }
+    v
+}
+
+fn c18_eval_dup(desc: &str, sources: &[String]) -> (u64, u64, Vec<Violation>) {
+    let (a, a_acc) = gen_tokens(&sources[0]);
+    let (b, b_acc) = gen_tokens(&sources[1]);
+    let mut v = vec![];
+    if a_acc != b_acc || (a_acc && a != b) {
+        v.push(viol(
+            "ORDER-SENSITIVE",
+            "c18",
+            desc.to_string(),
+            format!("the same key twice with different values: first order accepted={a_acc}, second order accepted={b_acc}{}. first: {} | second: {}", if a_acc && b_acc { " and the generated lexers differ (the last item silently wins)" } else { "" }, sources[0], sources[1]),
+            json!({"sources": [sources[0], sources[1]], "dup": true}),
+        ));
+    }
+    (2, 1, v)
+}
+
 fn c18_eval(desc: &str, sources: &[String]) -> (u64, u64, Vec<Violation>) {
     let (canon, canon_acc) = gen_tokens(&sources[0]);
     let mut v = vec![];
@@ -675,7 +716,9 @@ pub fn c18(a: &Args) -> Report {
     cases.extend(c18_generic_cases());
     let n_text = cases.len();
     cases.extend(c18_skip_cases());
-    let outs: Vec<(u64, u64, Vec<Violation>)> = cases.par_iter().enumerate().map(|(i, (d, s))| if i < n_text { c18_eval(d, s) } else { c18_eval_equiv(d, s) }).collect();
+    let n_equiv = cases.len();
+    cases.extend(c18_dup_cases());
+    let outs: Vec<(u64, u64, Vec<Violation>)> = cases.par_iter().enumerate().map(|(i, (d, s))| if i < n_text { c18_eval(d, s) } else if i < n_equiv { c18_eval_equiv(d, s) } else { c18_eval_dup(d, s) }).collect();
     for ((d, s), (n, nt, v)) in cases.iter().zip(outs) {
         rep.count("evaluations", n);
         rep.count("distinct_nontrivial", nt);
@@ -1119,7 +1162,13 @@ pub fn replay(a: &Args, rec: &serde_json::Value) -> Report {
         }
         "c18" => {
             let s: Vec<String> = serde_json::from_value(r["sources"].clone()).expect("sources");
-            let differ = if r["equiv"].as_bool() == Some(true) { gen_equiv(&s[0]) != gen_equiv(&s[1]) } else { gen_tokens(&s[0]).0 != gen_tokens(&s[1]).0 };
+            let differ = if r["dup"].as_bool() == Some(true) {
+                !c18_eval_dup("replay", &s).2.is_empty()
+            } else if r["equiv"].as_bool() == Some(true) {
+                gen_equiv(&s[0]) != gen_equiv(&s[1])
+            } else {
+                gen_tokens(&s[0]).0 != gen_tokens(&s[1]).0
+            };
             if differ {
                 rep.violations.push(viol(tag, "c18", s[1].clone(), "outputs differ between the two orders".into(), json!({})));
             }
